@@ -125,6 +125,18 @@ def conv_case(part, item):
             if not torch.equal(got, got.t()):
                 bad(f'symmetry_{nm}', f'{nm} factor not exactly symmetric')
                 return
+        # 6. the helper is a function of its input: the same helper fed a
+        # LARGER input first (other resolution, other batch) must give the
+        # same answers for x afterwards
+        big = unique_ints((batch + 1, cin, H + 3, W + 2), 5 + seed) + 1000
+        h._extract_patches(big.clone())
+        h.get_a_factor(big.clone())
+        again_p = h._extract_patches(x.clone())
+        again_a = h.get_a_factor(x.clone())
+        if not torch.equal(again_p, exp_p) or not torch.equal(again_a, A):
+            bad('history', 'patches / A factor of the same input differ '
+                'after the helper had processed a larger input')
+            return
     except Exception as e:  # noqa
         bad(f'exception:{type(e).__name__}', str(e)[:200])
         return
